@@ -77,7 +77,24 @@ var restEndpoints = []restEndpoint{
 	{"opl", "POST", "/opl/syntax/check", false, true},
 }
 
+// deepBody: pathological nesting for the syntax endpoints - far deeper than any
+// documented limit and large enough (up to ~4 MB) that unbounded recursion
+// exhausts a goroutine stack, which no recovery can catch.
+func deepBody(t *Tape) string {
+	unit := []string{"!(", "(", "!", "((!(", "[", "{", "this.related.x.traverse((p) => ", "SubjectSet<A, \"r\">[] | ("}[t.Choose(8)]
+	k := []int{2000, 100000, 400000, 2000000}[t.Weighted(3, 3, 2, 2)]
+	if len(unit)*k > 4_000_000 {
+		k = 4_000_000 / len(unit)
+	}
+	prefix := []string{"", "class A implements Namespace { permits = { p: (ctx) => ", "class A implements Namespace { related: { r: "}[t.Choose(3)]
+	return prefix + strings.Repeat(unit, k)
+}
+
 func (s *Sys) genHostileREST(t *Tape, dom Domain, existing []Tuple) hostileReq {
+	if t.Bool(1, 40) {
+		b := deepBody(t)
+		return hostileReq{Transport: "rest", Method: "POST", Target: "/opl/syntax/check", Body: b, router: s.OPLH, Desc: fmt.Sprintf("POST /opl/syntax/check (%d bytes of nesting)", len(b))}
+	}
 	ep := restEndpoints[t.Choose(len(restEndpoints))]
 	h := hostileReq{Transport: "rest", Method: ep.method, Write: ep.write}
 	switch ep.router {
@@ -270,6 +287,12 @@ func (s *Sys) genHostileGRPC(t *Tape, dom Domain, existing []Tuple) hostileReq {
 			return err
 		}
 	case 12:
+		if t.Bool(1, 3) {
+			c := deepBody(t)
+			h.Desc = fmt.Sprintf("Syntax.Check{%d bytes of nesting}", len(c))
+			h.grpc = func() error { _, err := s.Syntax.Check(ctx, &opl.CheckRequest{Content: []byte(c)}); return err }
+			break
+		}
 		c := []string{"", "class", "\xff\xfe", strings.Repeat("(", 3000), "class A implements Namespace { permits = { p: (ctx) => " + strings.Repeat("!", 500) + "this.related.x.includes(ctx.subject) } }"}[t.Choose(5)]
 		h.Desc = fmt.Sprintf("Syntax.Check{%d bytes}", len(c))
 		h.grpc = func() error { _, err := s.Syntax.Check(ctx, &opl.CheckRequest{Content: []byte(c)}); return err }
